@@ -21,8 +21,10 @@ Definition get (a : env) (k : Z) : Z :=
   match PositiveMap.find (kp k) a with Some v => v | None => 0 end.
 Definition set (a : env) (k v : Z) : env := PositiveMap.add (kp k) v a.
 Definition env0 : env := PositiveMap.empty Z.
-(* field [id], element [i] *)
-Definition K (id i : Z) : Z := id * 65536 + i.
+(* field [id], element [i].  The stride exceeds every element index a decoder can reach on
+   arbitrary input (loop counts are at most 16-bit values times small constants), so keys of
+   different fields never collide *)
+Definition K (id i : Z) : Z := id * 4294967296 + i.
 
 (* ------------------------------------------------------------ bits *)
 Definition bits := list bool.
